@@ -1220,7 +1220,8 @@ func c07Errors(c *Ctx, walk, step *ssa.Function) {
 		}
 		for _, f := range storeFacts {
 			if bo, isB := f.Cond.(*ssa.BinOp); isB && ssau.IsNilConst(bo.Y) && ((bo.Op == token.NEQ && f.True) || (bo.Op == token.EQL && !f.True)) {
-				for _, d := range deepDefs(bo.X, walkFns) {
+				// (the error may be kept in a field of a record private to the iteration: `attempt.err != nil`)
+				for _, d := range deepDefsCells(bo.X, walkFns) {
 					if ex, isEx := d.(*ssa.Extract); isEx && ex.Tuple == ssa.Value(stepCall) && ex.Index == 1 {
 						under = true
 					}
